@@ -396,9 +396,10 @@ impl<'a> Builder<'a> {
                 let f = *f;
                 let crash = self.crash_for_closure();
                 let calls = std::cell::Cell::new(0u64);
+                let state = self.states.last().cloned();
                 erase(s.filter(move |r: &Rec| {
                     crash_tick(crash, &calls);
-                    f.keep(r.v)
+                    f.keep(r.v, state.as_ref().map_or(0, |h| h.get().acc))
                 }))
             }
             Stage::FlatMap(f) => {
@@ -416,7 +417,7 @@ impl<'a> Builder<'a> {
                 let calls = std::cell::Cell::new(0u64);
                 erase(s.filter_map(move |mut r: Rec| {
                     crash_tick(crash, &calls);
-                    if f.keep(r.v) {
+                    if f.keep(r.v, 0) {
                         r.v = g.apply(r.v, 0);
                         Some(r)
                     } else {
